@@ -2,9 +2,11 @@ package linker
 
 import (
 	"fmt"
+	"maps"
 	"os"
 	"path/filepath"
 	"runtime"
+	"slices"
 	"strings"
 
 	"github.com/DDP-Projekt/Kompilierer/cmd/internal/gcc"
@@ -77,7 +79,8 @@ func LinkDDPFiles(options Options) ([]byte, error) {
 	if options.DeleteIntermediateFiles {
 		defer options.Log("Lösche temporäre Dateien")
 	}
-	for path := range options.Dependencies.Dependencies {
+	// iterate in a fixed order, so that the link order and the first reported error do not depend on the map order
+	for _, path := range slices.Sorted(maps.Keys(options.Dependencies.Dependencies)) {
 		filename := filepath.Base(path)
 		// stdlib and runtime are linked by default
 		// ignore them because of the Duden
